@@ -225,6 +225,41 @@ theorem faithful_pickling_invisible_partial (pa : α → α) (pb : β → β) (p
     | error e => simp [he]
   simp [parallelFunctionWire, this]
 
+/-- **the process boundary, per batch** (widens `faithful_pickling_invisible_partial`): pickling
+    need only be faithful on what THIS batch really sends — its arguments, the results its calls
+    return and the exceptions its calls raise.  Values that do not survive pickling but do not occur
+    in the batch (e.g. an unreconstructible exception class nobody raises) are irrelevant. -/
+theorem pickling_invisible_on_batch (pa : α → α) (pb : β → β) (pe : ε → ε)
+    (configCpus cpus : Nat) (f : α → Except ε β) (args : List α) (hasTimeout : Bool) (evs : List Event)
+    (ha : ∀ a ∈ args, pa a = a)
+    (hb : ∀ a ∈ args, ∀ b, f a = .ok b → pb b = b)
+    (he : ∀ a ∈ args, ∀ e, f a = .error e → pe e = e) :
+    parallelFunctionWire pa pb pe configCpus f args cpus hasTimeout evs =
+      parallelFunction configCpus f args cpus hasTimeout evs := by
+  unfold parallelFunctionWire
+  split
+  · rfl
+  · apply parallelFunction_congr
+    intro a hmem
+    simp only [overWire, ha a hmem]
+    cases hfa : f a with
+    | ok b => simp [hb a hmem b hfa]
+    | error e => simp [he a hmem e hfa]
+
+/-- a lossy pickle of results is harmless for a batch whose results it does not touch: here `pb`
+    forgets second components, and every result has second component 0 already -/
+example : parallelFunctionWire id (fun (p : Nat × Nat) => (p.1, 0)) id 1
+    (fun (n : Nat) => (Except.ok (n, 0) : Except String (Nat × Nat))) [1, 2, 3] 2 false
+    [.done 2, .done 1, .done 0] = .returned [some (1, 0), some (2, 0), some (3, 0)] := by decide
+
+/-- `parallel_execute(verbose=…)`: the logging runner and the silent one are the same function of
+    the command's outcome, so the flag never changes the result -/
+theorem verbose_flag_invisible (configCpus cpus : Nat) (interrupt : ε) (verbose : Bool)
+    (commands : List (ExecResult ε)) (hasTimeout : Bool) (evs : List Event) :
+    parallelExecute configCpus (runnerOf verbose interrupt) commands cpus hasTimeout evs =
+      parallelExecute configCpus (childProcess interrupt) commands cpus hasTimeout evs := by
+  cases verbose <;> rfl
+
 /-! ### which children are workers (the D44 repair's own logic; seeded change C18_3) -/
 
 /-- a child process the caller already had when the helper was entered is never taken for a
